@@ -262,7 +262,10 @@ ENTRY_SHAPES = [
 ]
 
 
-def _mk_tab_bar(shape, base, t):
+CHORD_FRETS = [(3, 2), (10, 9), (7, 12), (12, 0), (11, 10)]
+
+
+def _mk_tab_bar(shape, base, t, cf=0):
     opens = _open(t)
     b = Bar("C", (4, 4))
     want = []
@@ -277,20 +280,21 @@ def _mk_tab_bar(shape, base, t):
             want.append([p])
             k += 1
         else:
-            p = opens[0] + 3
-            q = opens[1] + 2
+            p = opens[0] + CHORD_FRETS[cf][0]
+            q = opens[1] + CHORD_FRETS[cf][1]
             b.place_notes(NoteContainer([Note(p), Note(q)]), v)
             want.append(sorted(set([p, q])))
     return b, want
 
 
-def c20_tab_bar(ti: int, si: int, base: int, wi: int) -> bool:
+def c20_tab_bar(ti: int, si: int, base: int, wi: int, cf: int) -> bool:
     t = pick(P["tunings"], ti)
     shape = pick(ENTRY_SHAPES, si)
     width = pick([40, 60, 47], wi)
+    cf = enum(cf, 0, len(CHORD_FRETS))
     opens = _open(t)
     assume(opens[1] <= base <= opens[1] + 10)
-    b, want = _mk_tab_bar(shape, base, t)
+    b, want = _mk_tab_bar(shape, base, t, cf)
     lines = tablature.from_Bar(b, width, t, collapse=False)
     text = deep_real("\n".join(lines))
     cols = _read(text, t)
@@ -371,7 +375,7 @@ def claims(tier):
         par = {"tunings": [t]}
         cl.append(Claim("tab_note[%s]" % tag, c20_tab_note, params=par, group="c20_tab_note", pre=[lambda ti, p, width: ti == 0 and 0 <= p <= 127 and 0 <= width < 3], timeout=1500 if q else 3200, bounds="tablature.from_Note on %s, pitch symbolic 0..127, widths 40/80/33: decoded pitch or RangeError" % tag))
         cl.append(Claim("tab_container[%s]" % tag, c20_tab_container, params=par, group="c20_tab_container", pre=[lambda ti, p1, d, width: ti == 0 and 30 <= p1 <= (60 if q else 80) and 1 <= d <= (7 if q else 12) and 0 <= width < (1 if q else 3)], timeout=1500 if q else 3200, bounds="from_NoteContainer on %s: two notes, lower pitch and distance symbolic: decoded pitches or FingerError" % tag))
-        cl.append(Claim("tab_bar[%s]" % tag, c20_tab_bar, params=par, group="c20_tab_bar", pre=[lambda ti, si, base, wi: ti == 0 and 0 <= si < len(ENTRY_SHAPES) and 0 <= wi < 3], timeout=1500 if q else 3200, bounds="from_Bar on %s: %d entry shapes (notes, chords, rests) x 3 widths; base pitch symbolic within the second string's first 10 frets" % (tag, len(ENTRY_SHAPES))))
+        cl.append(Claim("tab_bar[%s]" % tag, c20_tab_bar, params=par, group="c20_tab_bar", pre=[lambda ti, si, base, wi, cf: ti == 0 and 0 <= si < len(ENTRY_SHAPES) and 0 <= wi < (2 if q else 3) and 0 <= cf < len(CHORD_FRETS)], timeout=1500 if q else 3200, bounds="from_Bar on %s: %d entry shapes (notes, chords at 5 fret pairs incl. one- and two-digit frets together, rests) x widths; base pitch symbolic within the second string's first 10 frets" % (tag, len(ENTRY_SHAPES))))
         cl.append(Claim("tab_track[%s]" % tag, c20_tab_track, params=par, group="c20_tab_track", pre=[lambda ti, base, wi: ti == 0 and 0 <= wi < 3], timeout=1500 if q else 3200, bounds="from_Track / from_Composition on %s: two bars, 3 page widths" % tag))
     cl.append(Claim("no_fingering", c20_no_fingering, params={"tunings": tabt}, pre=[lambda ti: 0 <= ti < len(P["tunings"])], timeout=600, bounds="unplayable entries raise FingerError / RangeError (%d tunings)" % len(tabt)))
     return cl
